@@ -154,6 +154,8 @@ type JGenOpts struct {
 	BaseDay      int    // first possible day
 	SpanDays     int    // days are drawn from [BaseDay, BaseDay+SpanDays]
 	ManyDecimals bool
+	DropPrices   bool // leave out some price declarations (valued reports must then fail)
+	ChainPrices  bool // declare some prices through a third commodity
 }
 
 var typeNames = []string{"Assets", "Liabilities", "Equity", "Income", "Expenses"}
@@ -250,8 +252,21 @@ func GenJournal(r *RNG, o JGenOpts) (*Journal, []string) {
 				if c == o.Valuation {
 					continue
 				}
+				if o.DropPrices && r.Chance(1, 3) {
+					tag("price-dropped")
+					continue
+				}
 				if di == 0 || r.Chance(1, 3) {
 					p := fmt.Sprintf("%d.%02d", r.Range(0, 300), r.Range(1, 99))
+					if o.ChainPrices && len(coms) > 2 && r.Chance(1, 3) {
+						// price in a third commodity, which itself is (or will be) priced in the valuation commodity
+						via := Pick(r, coms)
+						if via != c && via != o.Valuation {
+							j.Dirs = append(j.Dirs, JDir{Kind: 'p', Date: day, Com: c, Price: p, Target: via})
+							tag("price-chained")
+							continue
+						}
+					}
 					switch r.Intn(6) {
 					case 0: // declared the other way round
 						j.Dirs = append(j.Dirs, JDir{Kind: 'p', Date: day, Com: o.Valuation, Price: p, Target: c})
